@@ -5,35 +5,50 @@
    Apply steps must satisfy Routes!ApplyPost.                                                         *)
 EXTENDS TraceLib, FiniteSets
 
-VARIABLES cfg, kernel, links, desired, rtDirty, ifDirty, resyncQ, lie
+CONSTANT Tol          \* "none" for verdicts; "F1"/"F2"/"F3" only to classify an already rejected trace (see Routes.tla)
+VARIABLES cfg, kernel, links, desired, rtDirty, ifDirty, resyncQ, lie,
+          used         \* every ifindex some interface has had in this trace
 D == INSTANCE Routes
-vars == <<cfg, kernel, links, desired, rtDirty, ifDirty, resyncQ, lie>>
+vars == <<cfg, kernel, links, desired, rtDirty, ifDirty, resyncQ, lie, used>>
 
 CfgOf(c) == [ipv |-> c.ipv, table |-> c.table, defProto |-> c.defProto, devSrc |-> c.devSrc,
              wl |-> SeqToSet(c.wl), special |-> SeqToSet(c.special), ipip |-> c.ipip,
-             removeExt |-> c.removeExt, ownBird |-> c.ownBird,
+             removeExt |-> c.removeExt, ownBird |-> c.ownBird, ct |-> c.ct,
              allProtos |-> SeqToSet(c.allProtos), exclusive |-> SeqToSet(c.exclusive)]
 NoCfg == [ipv |-> 4, table |-> 254, defProto |-> 3, devSrc |-> "", wl |-> {}, special |-> {}, ipip |-> "",
-          removeExt |-> FALSE, ownBird |-> FALSE, allProtos |-> {}, exclusive |-> {}]
+          removeExt |-> FALSE, ownBird |-> FALSE, ct |-> FALSE, allProtos |-> {}, exclusive |-> {}]
 
 TInit == /\ l = 1 /\ cfg = NoCfg /\ kernel = {} /\ links = {} /\ desired = {}
-         /\ rtDirty = FALSE /\ ifDirty = {} /\ resyncQ = TRUE /\ lie = FALSE
+         /\ rtDirty = FALSE /\ ifDirty = {} /\ resyncQ = TRUE /\ lie = FALSE /\ used = {}
 
+Idxs(ls) == { x.idx : x \in ls }
 TReset == IsEvent("reset") /\ D!Reset(CfgOf(Cur.cfg), SeqToSet(Cur.kernel), SeqToSet(Cur.links))
-TSetRoutes == IsEvent("set_routes") /\ D!SetRoutes(Cur.cls, Cur.ifn, Cur.targets)
-TRouteUpdate == IsEvent("route_update") /\ D!RouteUpdate(Cur.cls, Cur.ifn, Cur.target)
-TRouteRemove == IsEvent("route_remove") /\ D!RouteRemove(Cur.cls, Cur.ifn, Cur.dst, Cur.prio)
-TEnvRoutes == IsEvent("env_routes") /\ D!EnvRoutes(SeqToSet(Cur.kernel))
-TEnvLink == IsEvent("env_link") /\ D!EnvLink(Cur.name, SeqToSet(Cur.links), SeqToSet(Cur.kernel))
-TIfaceEvent == IsEvent("iface_event") /\ D!IfaceEvent(Cur.name, Cur.idx, Cur.state)
-TQueueResync == IsEvent("queue_resync") /\ D!QueueResync
-TQueueResyncIface == IsEvent("queue_resync_iface") /\ D!QueueResyncIface(Cur.name)
-TFail == IsEvent("fail") /\ D!Fail(SeqToSet(Cur.flags))
+          /\ used' = Idxs(SeqToSet(Cur.links))
+\* environment assumption (checked, so that a harness slip is an error and not a verdict): Felix is only asked
+\* for routes that its own ownership policy recognises as Felix's
+Ownable(c, n, t) == D!PolicyOurs(n, D!Render(D!Mk(c, n, t), 0))
+TSetRoutes == /\ IsEvent("set_routes")
+              /\ Assert(\A i \in DOMAIN Cur.targets : Ownable(Cur.cls, Cur.ifn, Cur.targets[i]), "harness: route asked for that the policy would not own")
+              /\ D!SetRoutes(Cur.cls, Cur.ifn, Cur.targets) /\ UNCHANGED used
+TRouteUpdate == /\ IsEvent("route_update")
+                /\ Assert(Ownable(Cur.cls, Cur.ifn, Cur.target), "harness: route asked for that the policy would not own")
+                /\ D!RouteUpdate(Cur.cls, Cur.ifn, Cur.target) /\ UNCHANGED used
+TRouteRemove == IsEvent("route_remove") /\ D!RouteRemove(Cur.cls, Cur.ifn, Cur.dst, Cur.prio) /\ UNCHANGED used
+TEnvRoutes == IsEvent("env_routes") /\ D!EnvRoutes(SeqToSet(Cur.kernel)) /\ UNCHANGED used
+TEnvLink == /\ IsEvent("env_link")
+            /\ LET ls2 == SeqToSet(Cur.links)
+                   new == { x \in ls2 : x.name = Cur.name /\ ~\E o \in links : o.name = x.name /\ o.idx = x.idx }
+               IN /\ D!EnvLink(Cur.name, ls2, SeqToSet(Cur.kernel), \E x \in new : x.idx \in used)
+                  /\ used' = used \cup Idxs(ls2)
+TIfaceEvent == IsEvent("iface_event") /\ D!IfaceEvent(Cur.name, Cur.idx, Cur.state) /\ UNCHANGED used
+TQueueResync == IsEvent("queue_resync") /\ D!QueueResync /\ UNCHANGED used
+TQueueResyncIface == IsEvent("queue_resync_iface") /\ D!QueueResyncIface(Cur.name) /\ UNCHANGED used
+TFail == IsEvent("fail") /\ D!Fail(SeqToSet(Cur.flags)) /\ UNCHANGED used
 \* the interfaces do not change during an Apply (the driver is sequential); the logged links are checked to
 \* be the ones the spec already has, so that a harness slip cannot be mistaken for a verdict
 TApply == /\ IsEvent("apply")
           /\ Assert(SeqToSet(Cur.links) = links, "harness: links changed during Apply")
-          /\ D!Apply(Cur.ok, SeqToSet(Cur.kernel))
+          /\ D!Apply(Cur.ok, SeqToSet(Cur.kernel)) /\ UNCHANGED used
 
 TNext == TReset \/ TSetRoutes \/ TRouteUpdate \/ TRouteRemove \/ TEnvRoutes \/ TEnvLink \/ TIfaceEvent
          \/ TQueueResync \/ TQueueResyncIface \/ TFail \/ TApply
